@@ -6,6 +6,7 @@ import (
 	"fmt"
 	"os"
 	"path/filepath"
+	"regexp"
 	"strings"
 )
 
@@ -16,7 +17,8 @@ import (
 //
 //	C <config>
 //	R <hash> <mode>                                    root state
-//	E <from> <to> <dev 0|1> <op> <hist>                transition (<hist> = hash of the history that led to <from>)
+//	E <from> <to> <dev 0|1> <op> <hist> <tables>       transition (<hist> = hash of the history that led to
+//	                                                   <from>, <tables> = hash of <to> without freshness labels)
 //	Z <hash>                                           state expanded, no default event enabled
 //	K <hash> <rounds>                                  closure: round-robin from <hash> reached the fixed point
 //	S <hash> <mode> <quiescent 0|1> <ok 0|1> <best tables> <detail>   first time a process sees <hash>
@@ -117,6 +119,22 @@ func (t *Trace) Edge(from, histKey string, s *Sim, sn *Snap, op string, dev bool
 	canon := sn.CanonRouting()
 	to := t.Hash(canon)
 	// one write for both lines
-	t.f.WriteString("E\t" + from + "\t" + to + "\t" + b01(dev) + "\t" + clean(op) + "\t" + t.Hash(histKey)[:8] + "\n" + t.stateLine(to, s, sn, q, fs))
+	t.f.WriteString("E\t" + from + "\t" + to + "\t" + b01(dev) + "\t" + clean(op) + "\t" + t.Hash(histKey)[:8] + "\t" + t.Hash(relRe.ReplaceAllString(canon, "N($1 f"))[:12] + t.dbg(histKey, canon) + "\n" + t.stateLine(to, s, sn, q, fs))
 	return canon
+}
+
+// relRe matches the fresh/stale/stuck label of a neighbour entry in the canonical form. Two
+// concrete states with equal canonical form can hold DIFFERENT stale advertisements of a neighbour
+// that yield the same costs; when the neighbour's advertisement later changes, one of them may
+// become "fresh" and the other not. Their tables and all future tables are equal (the pending fetch
+// re-derives the same costs), only the label differs; the analysis therefore compares successor
+// states modulo these labels when it looks for canonical states with diverging futures.
+var relRe = regexp.MustCompile(`N\((r\d+|h[0-9a-f]+|-) \S+ f`)
+
+// dbg appends the full history and target canon to E lines when VERIF_DV_TRACEDEBUG is set.
+func (t *Trace) dbg(hist, canon string) string {
+	if os.Getenv("VERIF_DV_TRACEDEBUG") == "" {
+		return ""
+	}
+	return "\t" + clean(hist) + "\t" + clean(canon)
 }
